@@ -40,6 +40,8 @@ type Handler interface {
 	Lock(site string, try func() bool, lock func())
 	// Perm returns a permutation of 0..n-1 for map iteration (nil = sorted order).
 	Perm(site string, n int) []int
+	// MapAccess announces a read or write of the shared map with identity id.
+	MapAccess(site string, id uintptr, write bool)
 }
 
 // H is the installed handler (nil outside simulation).
@@ -142,6 +144,24 @@ func Range[M ~map[K]V, K cmp.Ordered, V any](site string, m M) iter.Seq2[K, V] {
 			}
 		}
 	}
+}
+
+// MapR / MapW replace m in m[k] (read) and in m[k] = v, m[k]++, delete(m, k) (write) for maps reached
+// through a struct field or a package variable. The access becomes a scheduling point; the simulator
+// reports two tasks standing at accesses of the same map when one of them writes (the Go runtime
+// answers that with the unrecoverable "concurrent map read and map write").
+func MapR[M ~map[K]V, K comparable, V any](site string, m M) M {
+	if h := H; h != nil && m != nil {
+		h.MapAccess(site, reflect.ValueOf(m).Pointer(), false)
+	}
+	return m
+}
+
+func MapW[M ~map[K]V, K comparable, V any](site string, m M) M {
+	if h := H; h != nil && m != nil {
+		h.MapAccess(site, reflect.ValueOf(m).Pointer(), true)
+	}
+	return m
 }
 
 // ---- sync.Pool under simulation
